@@ -165,6 +165,8 @@ def check_theorems(theorem_file):
 
 def run_coq_cases(prop, stream, terms, workdir):
     """write sharded cases files, compile them in parallel, return (set of disagreeing indices, errors)"""
+    if getattr(stream, 'mode', None) == 'lemma':
+        return run_coq_lemmas(prop, stream, terms, workdir)
     files = []
     SHARD = getattr(stream, 'shard', None) or max(25, min(DEFAULT_SHARD, -(-len(terms) // JOBS)))
     for s in range(0, len(terms), SHARD):
@@ -194,6 +196,30 @@ def run_coq_cases(prop, stream, terms, workdir):
             continue
         for tok in re.findall(r'\d+', m.group(2)):
             bad.add(s + int(tok))
+    return bad, errors
+
+
+def run_coq_lemmas(prop, stream, terms, workdir):
+    """lemma mode: every case is a Coq script (statements about the model at that input, closed by Qed); one coqc process per case,
+    a case whose script does not compile is a disagreement between the model and the observed behaviour"""
+    files = []
+    for i, t in enumerate(terms):
+        path = os.path.join(workdir, 'lemma_%s_%s_%d.v' % (prop, stream.name, i))
+        with open(path, 'w') as f:
+            f.write(stream.imports + '\n' + stream.check_def + '\n' + t + '\n')
+        files.append((i, path))
+    bad = set(); errors = []
+    pending = list(files); running = []
+    while pending or running:
+        while pending and len(running) < JOBS:
+            i, p = pending.pop(0)
+            running.append((i, p, subprocess.Popen('exec timeout %d coqc -Q %s TL %s' % (getattr(stream, 'lemma_timeout', 300), COQ_DIR, p), shell=True,
+                                                  stdout=subprocess.PIPE, stderr=subprocess.STDOUT, text=True, cwd=workdir)))
+        i, p, pr = running.pop(0)
+        out, _ = pr.communicate()
+        if pr.returncode != 0:
+            bad.add(i)
+            stream.lemma_output = getattr(stream, 'lemma_output', {}); stream.lemma_output[i] = out[-500:]
     return bad, errors
 
 
@@ -295,6 +321,7 @@ def main(prop, tier='quick', seed=None, replay=None):
             t_s = time.time()
             bad, errs = run_coq_cases(prop, st, terms, work) if terms else (set(), [])
             t_coq = time.time() - t_s
+            lemma_out = {idx[b]: v for b, v in getattr(st, 'lemma_output', {}).items()}
             bad = sorted(idx[b] for b in bad)
             coq_errors += [dict(e, stream=st.name) for e in errs]
             ofail = []
@@ -312,7 +339,7 @@ def main(prop, tier='quick', seed=None, replay=None):
                 else:
                     new_fail.append({'stream': st.name, 'si': si, 'case': cases[i], 'observed': observed[i], 'why': why, 'in_disagreement': i in bad})
             for i in bad:
-                disagreements.append({'stream': st.name, 'si': si, 'case': cases[i], 'observed': observed[i]})
+                disagreements.append({'stream': st.name, 'si': si, 'case': cases[i], 'observed': observed[i], 'coq_output': lemma_out.get(i)})
             nt = {case_hash(c) for c, o in zip(cases, observed) if st.nontrivial(c, o)}
             dist = {}
             for c, o in zip(cases, observed):
@@ -371,7 +398,7 @@ def main(prop, tier='quick', seed=None, replay=None):
                 if disagreements:
                     d0 = disagreements[0]
                     reason = 'model/implementation correspondence of stream %s (Coq model %s) no longer checks: the model computes something else on the stored input' % (d0['stream'], mod.THEOREM_FILE)
-                    replay_cases = [{'stream': d['stream'], 'case': d['case'], 'observed': d['observed'], 'why': 'model disagrees'} for d in disagreements[:3]]
+                    replay_cases = [{'stream': d['stream'], 'case': d['case'], 'observed': d['observed'], 'why': 'model disagrees', 'coq_output': d.get('coq_output')} for d in disagreements[:3]]
                 elif coq_errors:
                     reason = 'the correspondence cases could not be evaluated by coqc: ' + coq_errors[0]['output'][-300:]
                 elif hyg:
